@@ -70,7 +70,7 @@ class Prof:
         self.max_ops = 8
         self.max_shared = 3
         self.w = {'timeout': 6, 'wait': 2, 'succeed': 2, 'fail': 0, 'spawn': 1, 'join': 1,
-                  'interrupt': 0, 'cond': 0, 'ret': 1, 'raise': 0, 'negtimeout': 0, 'addcb': 0, 'fire': 0}
+                  'interrupt': 0, 'cond': 0, 'ret': 1, 'raise': 0, 'negtimeout': 0, 'addcb': 0, 'fire': 0, 'subwait': 0}
         self.handlers = ['cont', 'cont', 'rewait', 'ret', 'other']
         self.pool = 'GRID'
         self.top_timeouts = 2
@@ -87,6 +87,9 @@ def gen_tree(rng, prof, ctx, depth):
             return {'leaf': 'foreign'}
         if ctx.get('prev') and rng.random() < 0.3:
             return {'leaf': 'label', 'lb': rng.choice(ctx['prev'])}
+        if prof.w.get('subwait') and ctx.get('nested') and rng.random() < 0.15:
+            # a nested condition of an earlier tree is an operand of this tree as well (a second parent)
+            return {'leaf': 'label', 'lb': rng.choice(ctx['nested'])}
         if r < 0.55 or not (ctx['shared'] or ctx['procs']):
             return {'leaf': 'timeout', 'd': rng.choice(pool), 'v': ctx['val']()}
         if r < 0.8 and ctx['shared']:
@@ -156,6 +159,19 @@ def gen_ops(rng, prof, ctx, pid, depth):
             op = {'op': 'cond', 'tree': gen_tree(rng, prof, ctx, prof.depth + 1), 'h': h}
             if 'leaf' in op['tree']:
                 op['tree'] = {'t': rng.choice(['all', 'any']), 'kids': [op['tree']]}
+            def nested(node, lb, top=True):
+                if 'leaf' in node:
+                    return
+                if not top:
+                    ctx.setdefault('nested', []).append(lb)
+                for j, kid in enumerate(node.get('kids', [])):
+                    nested(kid, '%s/%d' % (lb, j), False)
+            nested(op['tree'], '%s.%d' % (pid, len(ops)))
+        elif k == 'subwait':
+            # somebody also holds a nested condition of a tree and waits for it (or for it again) on its own
+            if not ctx.get('nested'):
+                continue
+            op = {'op': 'waitl', 'lb': rng.choice(ctx['nested']), 'h': h}
         elif k == 'ret':
             if rng.random() < 0.5:
                 continue
@@ -466,6 +482,8 @@ class World:
                     ev = self.procs.get(op['p'])
                     if op['p'] == pid:
                         ev = None
+                elif k == 'waitl':
+                    ev = env.by_label.get(op['lb'])
                 elif k == 'cond':
                     try:
                         r = self.build_tree(op['tree'], '%s.%d' % (pid, i), pid)
